@@ -133,7 +133,7 @@ def run(prop, tier, seed, work, replay, t0):
     for i, desc in enumerate(descs):
         try:
             res = mod.eval_case(desc, ctx)
-        except Exception as e:  # harness/implementation crash outside what the case expects
+        except (Exception, SystemExit) as e:  # harness/implementation crash outside what the case expects
             res = {"ints": None, "oracle": f"unexpected exception {type(e).__name__}: {e}", "nontrivial": None,
                    "trace": traceback.format_exc()[-1500:]}
             crashed.append(i)
